@@ -211,6 +211,15 @@ def checkDump (st : St) (d : IDump) (afterMaintain : Bool) (modelDropped : List 
         " [failed demotion/promotion in run_maintenance: the model, which agrees with the code on this line, un-tracks it without a removal reason]"
         else ""
       bad := ("no_silent_loss", s!"accepted t{i} vanished: neither tracked nor in the removal cache (status {lookupD d.st i "?"}){why}") :: bad
+  -- an id that left with a reason is reported as removed
+  for i in st.accepted do
+    if !(d.contained.contains i) then
+      match d.cache.find? (·.1 == i) with
+      | some (_, reason) =>
+        let s := lookupD d.st i "?"
+        if s == "-" || s == "P" || s == "K" then
+          bad := ("no_silent_loss", s!"t{i} left with reason {reason} but transaction_status says {s}") :: bad
+      | none => pure ()
   -- per account
   for a in List.range nAccts do
     let pn := (d.pend.filter (·.acct == a)).map (·.nonce)
@@ -331,6 +340,26 @@ def run (lines : Array String) : Driver.Report := Id.run do
             | _ => (s, "bad-op", false)
           r := r.check n line impl s!"{mres} | {dump s' st.txs.size}"
           if rest.headD "" == "insert" then r := r.bump s!"insert_{ires}"
+          -- what happened inside (from the model, which is compared with the code on this line)
+          let pIds0 := s.pend.map (·.id)
+          let kIds0 := s.park.map (·.id)
+          let promoted := (s'.pend.filter (fun t => kIds0.contains t.id)).length
+          let demoted := (s'.park.filter (fun t => pIds0.contains t.id)).length
+          if promoted > 0 then r := r.bump "moved_parked_to_ready" promoted
+          if demoted > 0 then r := r.bump "moved_ready_to_parked" demoted
+          for e in s'.cache do
+            if !(s.cache.any (·.1 == e.1)) then
+              r := r.bump (match e.2 with
+                | .expired => "removed_expired"
+                | .nonceStale => "removed_stale"
+                | .lowerNonce => "removed_lower_nonce_invalidated"
+                | .failedExec _ => "removed_failed_execution"
+                | .internal => "removed_internal"
+                | .included _ _ => "removed_included")
+          if s'.pend.any (fun t => match s.pend.find? (·.id == t.id) with
+              | some u => u.costs != t.costs
+              | none => false) then r := r.bump "recosted_ready"
+          if (builderQueue s').length ≥ 4 then r := r.bump "builder_queue_ge4"
           -- ghost state of the monitors, from the op and the implementation's result
           match rest with
           | ["insert", t, cur, b, _, _] =>
@@ -340,7 +369,8 @@ def run (lines : Array String) : Driver.Report := Id.run do
               st := { st with shown := setKey st.shown tx.acct cur.toNat! }
               if ires == "pending" then st := { st with vbal := setKey st.vbal tx.acct (parseVec b) }
               if ires == "pending" || ires == "parked" then
-                st := { st with accepted := id :: st.accepted.filter (· != id), acked := st.acked.filter (· != id) }
+                st := { st with accepted := id :: st.accepted.filter (· != id), acked := st.acked.filter (· != id),
+                                lost := st.lost.filter (· != id) }
             | none => pure ()
           | ["uncache", t] =>
             let id := (parseLabel t).getD 0
